@@ -239,6 +239,7 @@ func main() {
 					}
 				}
 				if err == nil {
+					removed := []*blockchain.Block{}
 					for un.Tip() != nil && un.Tip().Header.Height > ucfg.GenesisHeight {
 						tip := un.Tip()
 						if err := un.Exec.VerifDeleteBlock(tip, false); err != nil {
@@ -250,6 +251,19 @@ func main() {
 						if un.Tip() == nil || err != nil || !bytes.Equal(un.Tip().Header.ID, want.ID) {
 							r.Violation("unwind-cached-tip-lost", fmt.Sprintf("after removing %d-th block of path %v with a 2-block cache the cached tip is missing or wrong", tip.Header.Height, path), caseT{path, -1, false, "unwind", keep})
 							break
+						}
+						removed = append(removed, tip)
+						for _, rb := range removed {
+							// a removed block is gone for every reader: by ID (header and block) and by height
+							if hd, err := un.Chain.DataAccess().GetBlockHeader(rb.Header.ID); err == nil && hd != nil {
+								r.Violation("removed-block-still-served", fmt.Sprintf("after unwinding path %v (2-block cache) to height %d the removed block of height %d is still returned by GetBlockHeader(id)", path, tip.Header.Height-1, rb.Header.Height), caseT{path, -1, false, "unwind", keep})
+							}
+							if bl, err := un.Chain.DataAccess().GetBlock(rb.Header.ID); err == nil && bl != nil {
+								r.Violation("removed-block-still-served", fmt.Sprintf("after unwinding path %v (2-block cache) to height %d the removed block of height %d is still returned by GetBlock(id)", path, tip.Header.Height-1, rb.Header.Height), caseT{path, -1, false, "unwind", keep})
+							}
+							if hd, err := un.Chain.DataAccess().GetBlockHeaderByHeight(rb.Header.Height); err == nil && hd != nil {
+								r.Violation("removed-block-still-served", fmt.Sprintf("after unwinding path %v (2-block cache) to height %d a header is still returned for height %d", path, tip.Header.Height-1, rb.Header.Height), caseT{path, -1, false, "unwind", keep})
+							}
 						}
 					}
 					un.Close()
